@@ -498,6 +498,13 @@ func decompose(lit string) (neg bool, digits string, exp10 int64, expHuge int) {
 			}
 		}
 		e = v
+		// astronomically large exponents (still inside int64) are treated like the out-of-range ones, so that the
+		// arithmetic below cannot wrap around
+		if v > 1<<40 {
+			expHuge, e = 1, 0
+		} else if v < -(1 << 40) {
+			expHuge, e = -1, 0
+		}
 	}
 	// strip leading zeros
 	j := 0
